@@ -471,3 +471,85 @@ def rule_fmt_complete(prog, rep, units, rid='F1'):
                                       '%s: the retry loop around %s(%s, %s, ...) can be left with the buffer kept on a path that did '
                                       'not establish %s < %s: a text of exactly %s characters is stored with its last character cut off'
                                       % (f.name, prog.callee_name(x), buf, sz, res, sz, sz))
+
+
+# --------------------------------------------------------------------------------------
+# VA1: a va_list is consumed once per va_start
+
+def rule_valist_once(prog, rep, units, rid='VA1'):
+    """Typestate of a va_list: va_start makes it fresh, a v*printf-family call (or va_arg) consumes it, va_end closes it.  A second
+    consumption without a new va_start / va_copy reads arguments that are no longer there (the retry of a formatting loop then
+    formats garbage or crashes on a `%s`)."""
+    rep.rule(rid, 'every consumption of a va_list (v*printf family) is preceded, on every path since the previous consumption, by va_start')
+    consumers = {'vsnprintf', 'vsprintf', 'vprintf', 'vfprintf', 'vasprintf', 'vdprintf', 'vsscanf', 'vfscanf', 'vscanf',
+                 '__builtin___vsnprintf_chk', '__builtin___vsprintf_chk', '__vsnprintf_chk', '__vsprintf_chk', '__vfprintf_chk', '__vprintf_chk'}
+    for u in units:
+        prog.unit(u)
+        for f in sorted(prog.funcs_in(u), key=lambda x: x.line or 0):
+            if f.body is None:
+                continue
+            cfg = f.cfg
+            lists = {x.get('name') for x in walk(f.body) if x.get('kind') == 'VarDecl' and 'va_list' in (qtype(x) or '')}
+            if not lists:
+                continue
+
+            def events(m):
+                out = []
+                if not isinstance(m.ast, dict) or m.kind == 'macro':
+                    return out
+
+                def rec(x):
+                    for c in children(x):
+                        rec(c)
+                    if x.get('kind') == 'CallExpr':
+                        c0 = strip(children(x)[0])
+                        nm = prog.callee_name(x) or (c0.get('referencedDecl') or {}).get('name') or canon(c0)
+                        args = [canon(strip(a)) for a in children(x)[1:]]
+                        for ap in lists:
+                            if ap in args or ('(&%s)' % ap) in args:
+                                if 'va_start' in nm:
+                                    out.append(('start', ap, x))
+                                elif 'va_end' in nm:
+                                    out.append(('end', ap, x))
+                                elif 'va_copy' in nm:
+                                    out.append(('start', args[0], x))
+                                elif nm in consumers or nm.startswith('v'):
+                                    out.append(('use', ap, x))
+                    elif x.get('kind') == 'VAArgExpr':
+                        pass
+                rec(m.ast)
+                return out
+            IN = {cfg.entry.id: frozenset()}
+            work = [cfg.entry]
+            bad = {}
+            nuse = 0
+            while work:
+                m = work.pop()
+                st = set(IN[m.id])            # (ap, 'fresh' | 'used')
+                for (k, ap, x) in events(m):
+                    if k == 'start':
+                        st = {t for t in st if t[0] != ap} | {(ap, 'fresh')}
+                    elif k == 'end':
+                        st = {t for t in st if t[0] != ap}
+                    elif k == 'use':
+                        if (ap, 'used') in st and id(x) not in bad:
+                            bad[id(x)] = (x, ap)
+                        st = {t for t in st if t[0] != ap} | {(ap, 'used')}
+                st = frozenset(st)
+                for (s, _l) in m.succs:
+                    old = IN.get(s.id)
+                    if old is None:
+                        IN[s.id] = st
+                        work.append(s)
+                    elif not st <= old:
+                        IN[s.id] = old | st
+                        work.append(s)
+            uses = [e for m in cfg.nodes if m.id in cfg.reachable for e in events(m) if e[0] == 'use']
+            for (_k, ap, x) in uses:
+                rep.instance(rid)
+                ok = id(x) not in bad
+                rep.oblige(rid, ok, {'function': f.name, 'call': canon(x)[:50]})
+                if not ok:
+                    rep.violation(rid, f, x.get('_line'), 'va:%s' % ap,
+                                  '%s: %s consumes the va_list %s again on a path on which it was already consumed and not re-started with '
+                                  'va_start: the second formatting attempt reads arguments that are gone' % (f.name, canon(x)[:50], ap))
